@@ -27,6 +27,7 @@ type C07Case struct {
 	// HostileTraffic: request values were built from the decoders' escape alphabets and the configuration
 	// carries rules that run transformation chains over everything the peer controls
 	HostileTraffic bool `json:"hostile_traffic,omitempty"`
+	Limits         bool `json:"limits,omitempty"` // small body limits and rules that move them
 }
 
 var c07Once sync.Once
@@ -426,6 +427,27 @@ func genC07(t *rapid.T) *C07Case {
 		}
 		lines = append(lines, l)
 	}
+	limits := rapid.IntRange(0, 5).Draw(t, "limits") == 0
+	if limits {
+		// body-limit dynamics: small limits, both limit actions, and rules that move the limits (or switch body
+		// access / the body processor) in any phase, i.e. possibly below what has been buffered by then
+		la := []string{"Reject", "ProcessPartial"}
+		lines = append([]string{"SecRuleEngine On", "SecRequestBodyAccess On", "SecResponseBodyAccess On", "SecResponseBodyMimeType text/plain text/html application/json",
+			fmt.Sprintf("SecRequestBodyLimit %d", rapid.IntRange(4, 48).Draw(t, "rql")),
+			fmt.Sprintf("SecRequestBodyInMemoryLimit %d", rapid.IntRange(1, 48).Draw(t, "rqm")),
+			"SecRequestBodyLimitAction " + rapid.SampledFrom(la).Draw(t, "rqa"),
+			fmt.Sprintf("SecResponseBodyLimit %d", rapid.IntRange(4, 48).Draw(t, "rsl")),
+			"SecResponseBodyLimitAction " + rapid.SampledFrom(la).Draw(t, "rsa")}, lines...)
+		for i, k := 0, rapid.IntRange(1, 3).Draw(t, "nlimctl"); i < k; i++ {
+			ctl := rapid.SampledFrom([]string{"requestBodyLimit=%d", "responseBodyLimit=%d", "requestBodyLimit=%d", "requestBodyAccess=Off", "responseBodyAccess=Off",
+				"requestBodyProcessor=JSON", "requestBodyProcessor=XML", "responseBodyProcessor=JSON", "forceRequestBodyVariable=On", "requestBodyAccess=On"}).Draw(t, "limctl")
+			if strings.Contains(ctl, "%d") {
+				ctl = fmt.Sprintf(ctl, rapid.IntRange(1, 60).Draw(t, "limval"))
+			}
+			lines = append(lines, fmt.Sprintf("SecAction \"id:%d,phase:%d,pass,nolog,ctl:%s\"", 9500+i, rapid.IntRange(1, 4).Draw(t, "limphase"), ctl))
+		}
+		c.Limits = true
+	}
 	c.Lines = lines
 	for _, l := range lines {
 		if strings.Contains(l, "@rbl") || strings.Contains(l, "@geoLookup") || strings.Contains(strings.ToLower(l), "secremoterules") {
@@ -474,12 +496,27 @@ func genC07(t *rapid.T) *C07Case {
 		c.Req.RespBody = []byte(rapid.SampledFrom([]string{"body", `{"a":1}`, "<a>x</a>", "\xff\x00"}).Draw(t, "rbody"))
 	}
 	script := canonicalScript(&c.Req)
-	if rapid.IntRange(0, 2).Draw(t, "anomalous") == 0 {
-		nm := rapid.IntRange(1, 3).Draw(t, "nmutscript")
+	// bodies arrive in pieces, through the slice or the reader entry point
+	var chunked []Call
+	for _, call := range script {
+		if (call.Op == "wreq" || call.Op == "wresp") && len(call.Data) > 1 && rapid.Bool().Draw(t, "split") {
+			op := call.Op
+			if rapid.IntRange(0, 3).Draw(t, "viareader") == 0 {
+				op = "r" + op[1:]
+			}
+			cut := rapid.IntRange(1, len(call.Data)-1).Draw(t, "cut")
+			chunked = append(chunked, Call{Op: call.Op, Data: call.Data[:cut]}, Call{Op: op, Data: call.Data[cut:]})
+			continue
+		}
+		chunked = append(chunked, call)
+	}
+	script = chunked
+	if rapid.IntRange(0, 2).Draw(t, "anomalous") == 0 || (c.Limits && rapid.Bool().Draw(t, "anomalous2")) {
+		nm := rapid.IntRange(1, 4).Draw(t, "nmutscript")
 		for i := 0; i < nm && len(script) > 1; i++ {
 			last := len(script) - 1
 			j := rapid.IntRange(0, last-1).Draw(t, "j")
-			switch rapid.IntRange(0, 2).Draw(t, "smut") {
+			switch rapid.IntRange(0, 5).Draw(t, "smut") {
 			case 0:
 				script = append(script[:j+1], append([]Call{script[j]}, script[j+1:]...)...)
 			case 1:
@@ -487,10 +524,21 @@ func genC07(t *rapid.T) *C07Case {
 			case 2:
 				k := rapid.IntRange(0, last-1).Draw(t, "k")
 				script[j], script[k] = script[k], script[j]
+			case 3: // move one call somewhere else (a body write before its headers phase, a phase call early, ...)
+				mv := script[j]
+				rest := append(append([]Call(nil), script[:j]...), script[j+1:]...)
+				k := rapid.IntRange(0, len(rest)).Draw(t, "to")
+				script = append(append(append([]Call(nil), rest[:k]...), mv), rest[k:]...)
+			case 4: // an extra body write or phase call anywhere
+				extra := rapid.SampledFrom([]Call{{Op: "wreq", Data: []byte("x=EXTRA-REQUEST-BYTES")}, {Op: "wresp", Data: []byte("EXTRA-RESPONSE-BYTES")},
+					{Op: "rreq", Data: []byte("y=1")}, {Op: "rresp", Data: []byte("zz")}, {Op: "p1"}, {Op: "p2"}, {Op: "p3", Code: 200}, {Op: "p4"}, {Op: "p5"}}).Draw(t, "extra")
+				script = append(append(append([]Call(nil), script[:j]...), extra), script[j:]...)
+			case 5: // the handle is used after Close
+				script = append(append(append([]Call(nil), script[:j+1]...), Call{Op: "close"}), script[j+1:]...)
 			}
 		}
-		if len(script) > 14 {
-			script = append(script[:13], Call{Op: "p5"})
+		if len(script) > 18 {
+			script = append(script[:17], Call{Op: "p5"})
 		}
 	}
 	c.Script = script
@@ -621,6 +669,9 @@ func checkC07(c *C07Case) Result {
 		}
 		if c.RawReq != nil {
 			res.Labels = append(res.Labels, "parse-request-reader")
+		}
+		if c.Limits && c.Traffic && c.RawReq == nil {
+			res.Labels = append(res.Labels, "body-limit-dynamics")
 		}
 		if c.HostileTraffic && c.Traffic && c.RawReq == nil {
 			res.Labels = append(res.Labels, "hostile-values-through-transformation-chains")
